@@ -98,11 +98,11 @@ def constant_fold_binary_op(
     if op == "+" and isinstance(left, str) and isinstance(right, str):
         return left + right
     elif op == "*" and isinstance(left, str) and isinstance(right, int):
-        # The count is bounded too: '' * 2**63 raises OverflowError.
-        if right <= MAX_FOLDED_SIZE and len(left) * right <= MAX_FOLDED_SIZE:
+        # The count is bounded too: '' * 2**63 and '' * -2**63 raise OverflowError.
+        if abs(right) <= MAX_FOLDED_SIZE and len(left) * right <= MAX_FOLDED_SIZE:
             return left * right
     elif op == "*" and isinstance(left, int) and isinstance(right, str):
-        if left <= MAX_FOLDED_SIZE and left * len(right) <= MAX_FOLDED_SIZE:
+        if abs(left) <= MAX_FOLDED_SIZE and left * len(right) <= MAX_FOLDED_SIZE:
             return left * right
 
     # Complex construction.
